@@ -1,5 +1,7 @@
 import StarsimModel.Model.Slots
 import StarsimModel.Model.History
+import StarsimModel.Model.Link
+import StarsimModel.Generated.DistLink
 import StarsimModel.Model.Proto
 open StarsimModel StarsimModel.Slots StarsimModel.Proto
 
@@ -37,6 +39,13 @@ def stepLine (_ : Unit) (line : String) : Unit × String :=
       | some ops =>
           let d := Hist.run Hist.advP Hist.jumpedP (Hist.init (0, [])) ops
           ((), s!"len={d.hist.length} cur={showP d.cur} hist={String.intercalate ";" (d.hist.map showP)}")
+      | none => ((), "bad-op")
+  | ["link", ops] =>
+      -- `i` = Dist.init, `s` = anything that leaves the references alone; on the REGENERATED statement list of Dist.init
+      match (ops.toList.mapM (fun c => if c == 'i' then some Link.Op.init else if c == 's' then some Link.Op.sample else none)) with
+      | some ops =>
+          let d := Link.run Gen.distInitProg Link.fresh ops
+          ((), s!"linked={decide (d.link = d.rng)} made={d.made} rng={d.rng}")
       | none => ((), "bad-op")
   | ["combine", as, bs] =>
       match parseNatList? as, parseNatList? bs with
